@@ -204,9 +204,11 @@ def check_attribution(tr, msg, rec, res, tag=''):
     nothing else in the table changed; labels on the rendered line are the model's."""
     from core import wl
     m = rec['m']
+    gdb_sent_unseen = tag == ':gdb-mode' and rec['target'].ghost and m['sent']
     if rec['target'].ghost:
-        # creation never seen (mid-session log): stays unresolved, known by what the line says
-        if msg.obj.resolved() or (msg.obj.type, msg.obj.id) != (rec['target'].iface, rec['target'].id):
+        # creation never seen (mid-session log): stays unresolved, known by what the line says - in GDB mode a sent closure does
+        # not say what interface its (unseen) target has
+        if msg.obj.resolved() or (msg.obj.type, msg.obj.id) not in ((rec['target'].iface, rec['target'].id), (None, rec['target'].id) if gdb_sent_unseen else ()):
             res.bad('target-attribution:unseen' + tag, '%s: target became %r, model says %r' % (tr.lines[-1], str(msg.obj), rec['target'].key()))
     else:
         if not msg.obj.resolved() or key_of(msg.obj) != rec['target'].key():
@@ -251,10 +253,13 @@ def check_attribution(tr, msg, rec, res, tag=''):
         if real != mod:
             diff = {i: (real.get(i), mod.get(i)) for i in set(real) | set(mod) if real.get(i) != mod.get(i)}
             res.bad('object-table' + tag, '%s: table of %s differs from model at %r' % (tr.lines[-1], mc.name, diff))
-    # the rendered line
+    # the rendered line (not judged for a closure sent on an unseen object in GDB mode: neither its interface nor, therefore, its
+    # argument names can be known)
     line = str(msg)
     rx = expected_line_regex(rec, tr.dialect)
-    if not re.fullmatch(rx, line):
+    if gdb_sent_unseen:
+        pass
+    elif not re.fullmatch(rx, line):
         res.bad('rendered-line' + tag, 'shown %r, expected to match %r' % (line, rx))
     res.evals += 1
 
